@@ -73,6 +73,10 @@ var units = []Unit{
 		{Kind: "block", Name: "decodeMessageData_timestamp", Func: "Decoder.decodeMessageData", Anchor: "d.lastTimeOffset"},
 		// timestamp tracking of decodeFields: d.timestamp = timestamp; d.lastTimeOffset = byte(timestamp & mask)
 		{Kind: "block", Name: "decodeFields_timestamp", Func: "Decoder.decodeFields", Anchor: "d.lastTimeOffset"},
+		// which definition a data record uses: localMesgNum := header; if compressed { localMesgNum = (header & mask) >> shift }
+		{Kind: "block", Name: "decodeMessageData_localMesgNum", Func: "Decoder.decodeMessageData", Anchor: "localMesgNum", Occur: 2, Up: 1},
+		{Kind: "cond", Name: "decodeMessage_isDefinition", Func: "Decoder.decodeMessage", Anchor: "MesgDefinitionMask"},
+		{Kind: "cond", Name: "decodeMessageDefinition_hasDevData", Func: "Decoder.decodeMessageDefinition", Anchor: "DevDataMask"},
 		{Kind: "cond", Name: "decodeMessageData_isCompressed", Func: "Decoder.decodeMessageData", Anchor: "MesgCompressedHeaderMask", Occur: 1},
 	}},
 	// component expansion: the bit store and the accumulator (a unit of its own: C05 does not depend on the timestamp blocks)
@@ -85,6 +89,8 @@ var units = []Unit{
 	}},
 	{Name: "encoder", Dir: "encoder", Items: []Item{
 		// the decision and header composition of compressTimestampIntoHeader (after the loop over the fields)
+		// the local message type goes into the record header: bits 5-6 of a compressed-timestamp header, bits 0-3 otherwise
+		{Kind: "block", Name: "encodeMessage_header", Func: "Encoder.encodeMessage", Anchor: "mesg.Header", Occur: 2, Up: 1},
 		{Kind: "block", Name: "compressTimestampIntoHeader_decide", Func: "Encoder.compressTimestampIntoHeader", Anchor: "e.timestampReference", Up: 1},
 	}},
 }
